@@ -505,34 +505,81 @@ class State:
         return rf
 
     def equate(self, x: RF, y: RF) -> bool:
-        """Record x == y; usable when one side is (monomial-wise) a single atom."""
+        """Record the fact x == y by solving it for one atom that occurs linearly."""
         x, y = self.norm(x), self.norm(y)
         if x.equals(y):
             return True
-        diff_atoms = None
         for lhs, rhs in ((x, y), (y, x)):
             a = _single_atom(lhs)
-            if a is not None and a not in rhs.atoms() and a[0] not in ("const",):
+            if a is not None and a not in rhs.atoms() and a[0] not in ("const", "rnd", "fn"):
                 self.add_subst(a, rhs)
                 return True
-        # try to solve a(lhs)*m == rhs for an atom with exponent 1
-        q = x / y
-        if q.d.is_const() and q.n.is_monomial():
-            (m, c), = q.n.t.items()
-            for atom, e in m:
-                if e == (1, 0) or e == (-1, 0):
-                    rest = q / RF.atom(atom).pow_int(e[0])
-                    # atom^e * rest == 1  => atom = (1/rest)^(1/e)
-                    val = rest.inv() if e[0] == 1 else rest
-                    if atom not in val.atoms() and atom[0] in ("mu", "a", "sym", "ta", "um"):
-                        self.add_subst(atom, val)
-                        return True
+        diff = (x - y)
+        num = diff.n            # diff == 0  <=>  numerator == 0
+        from .poly import Poly
+        pref = {"ki": 0, "a": 1, "k": 2, "sym": 3, "parsed": 4, "ta": 5, "um": 6, "mu": 7, "n": 8}
+        cands = sorted((a for a in num.atoms() if a[0] in pref), key=lambda a: (pref[a[0]], repr(a)))
+        for atom in cands:
+            coef: dict = {}
+            rest: dict = {}
+            ok = True
+            for m, c in num.t.items():
+                es = [e for (a, e) in m if a == atom]
+                if not es:
+                    rest[m] = c
+                elif es[0] == (1, 0):
+                    mm = tuple((a, e) for (a, e) in m if a != atom)
+                    coef[mm] = coef.get(mm, 0) + c
+                else:
+                    ok = False
+                    break
+            if not ok or not coef:
+                continue
+            C, R = RF(Poly(coef)), RF(Poly(rest))
+            if C.is_zero():
+                continue
+            val = (RF.const(0) - R) / C
+            if atom in val.atoms() or self._mentions(val, atom, 0):
+                continue        # would define the atom through a rounding of itself
+            self.add_subst(atom, val)
+            return True
         self.notes.append(f"unused equality fact {x!r} == {y!r}")
         return False
 
+    def _mentions(self, rf: RF, atom, depth) -> bool:
+        if depth > 12:
+            return True
+        for a in rf.atoms():
+            if a == atom:
+                return True
+            if a[0] in ("rnd", "fn"):
+                arg = self.rnd_args.get(a[2])
+                if arg is not None and self._mentions(self.norm(arg), atom, depth + 1):
+                    return True
+        return False
+
     # -- rounding atoms
+    def integer_valued(self, rf: RF) -> bool:
+        """Z-linear combination of products of integer atoms (precision-0 roundings, grid indices)."""
+        rf = self.norm(rf)
+        if not rf.d.is_const():
+            return False
+        dc = rf.d.const_value()
+        for m, c in rf.n.t.items():
+            if (c / dc).denominator != 1:
+                return False
+            for a, e in m:
+                if e[1] != 0 or e[0] < 0:
+                    return False
+                if not ((a[0] == "rnd" and a[1] == 0) or a[0] == "ki" or
+                        (a[0] == "fn" and a[1] in ("floordiv", "numerator", "denominator", "int"))):
+                    return False
+        return True
+
     def rnd(self, prec: int, arg: RF) -> RF:
         arg = self.norm(arg)
+        if prec == 0 and self.integer_valued(arg):
+            return arg          # rounding an integer to precision 0 is the identity
         key = (prec, arg.key())
         n = self.rnd_index.get(key)
         if n is None:
